@@ -978,10 +978,12 @@ func (s *server) MutateRow(ctx context.Context, req *btpb.MutateRowRequest) (*bt
 	}
 
 	defer tbl.write()
+	verifYield("write.before-lock")
 	tbl.mu.Lock()
 	defer tbl.mu.Unlock()
 	now := s.clock()
 	r := tbl.getOrCreateRow(req.RowKey)
+	verifYield("write.row-fetched")
 
 	if err := applyMutations(tbl, r, req.Mutations, now); err != nil {
 		return nil, err
@@ -1000,12 +1002,14 @@ func (s *server) MutateRows(req *btpb.MutateRowsRequest, stream btpb.Bigtable_Mu
 	res := &btpb.MutateRowsResponse{Entries: make([]*btpb.MutateRowsResponse_Entry, len(req.Entries))}
 
 	defer tbl.write()
+	verifYield("write.before-lock")
 	tbl.mu.Lock()
 	defer tbl.mu.Unlock()
 	now := s.clock()
 
 	for i, entry := range req.Entries {
 		r := tbl.getOrCreateRow(entry.RowKey)
+		verifYield("write.row-fetched")
 
 		code, msg := int32(codes.OK), ""
 		if err := applyMutations(tbl, r, entry.Mutations, now); err != nil {
@@ -1035,10 +1039,12 @@ func (s *server) CheckAndMutateRow(ctx context.Context, req *btpb.CheckAndMutate
 	res := &btpb.CheckAndMutateRowResponse{}
 
 	defer tbl.write()
+	verifYield("write.before-lock")
 	tbl.mu.Lock()
 	defer tbl.mu.Unlock()
 	now := s.clock()
 	r := tbl.getOrCreateRow(req.RowKey)
+	verifYield("write.row-fetched")
 
 	// Figure out which mutation to apply.
 	whichMut := false
@@ -1227,10 +1233,12 @@ func (s *server) ReadModifyWriteRow(ctx context.Context, req *btpb.ReadModifyWri
 	}
 
 	defer tbl.write()
+	verifYield("write.before-lock")
 	tbl.mu.Lock()
 	defer tbl.mu.Unlock()
 	now := s.clock()
 	r := tbl.getOrCreateRow(req.RowKey)
+	verifYield("write.row-fetched")
 	resultRow := &btpb.Row{Key: req.RowKey} // copy of updated cells
 	cols := tbl.cols()
 
@@ -1478,6 +1486,7 @@ func (t *table) gc(now bigtable.Timestamp, done <-chan struct{}, force bool) {
 		// Reverse lock; check if we should exit
 		t.mu.Unlock()
 		defer t.mu.Lock()
+		verifYield("gc.unlocked")
 		select {
 		case <-done:
 			return false // server has been closed
